@@ -94,4 +94,9 @@ PROPS = {
         'level_text': 'PARTIAL. Lean 4 theorems about the trust decision, the pool and the watcher state machine of a hand-written model, tied to the code by real TLS handshakes against servers chaining to the old/new/unconfigured CA; crypto/tls, x509 chain building and timer scheduling are trusted.',
         'trusted': ['crypto/tls and crypto/x509 (handshake, chain building, SystemCertPool)', 'the settings hash (fnv64a) is treated as injective on the settings in play', 'timing: a rotation is judged after 7 refresh intervals', 'the in-place update of RootCAs on a live tls.Config is a data race (C16 known finding)'],
     },
+    'C18': {
+        'theorems': ['own_config_governs', 'ok_needs_tokens_in_own_store', 'cross_filter_characterisation', 'store_assignment', 'memory_timeouts_first_filter', 'shared_memory_store', 'second_filter_timeouts_ignored'],
+        'level_text': 'Lean 4 theorems: a filter uses only its own configuration; a session is honoured only if the store the filter resolves to returns tokens for the presented id (so filters on different stores are isolated); factory model (store assignment, whose timeouts). The statement itself is violated on the unchanged tree for filters that share a store: recorded as known findings, characterised by the theorems so that any other leak is still reported.',
+        'trusted': ['the system-level run uses the real clock and the real generator (no model comparison of requests; the factory assignment is compared with the model)'],
+    },
 }
